@@ -26,10 +26,10 @@ class SgraphFromSelectorsTripleYielder(BaseTriplesYielder):
 
 
     def _collect_every_target_node(self):
-        result = set()
+        result = {}  # insertion-ordered: a set would make the fetch order (and the output) depend on the hash seed
         for an_item in self._shape_map.yield_items():
             for a_node in an_item.node_selector.get_target_nodes():
-                result.add(a_node)
+                result[a_node] = None
         return list(result)
 
 
